@@ -20,11 +20,21 @@ func verifC21Invalid(err error) bool {
 // optionally while the ICE transport reports a state change; every interleaving
 // within the preemption bound is explored. All calls must return, the state is
 // final, and every mutating call afterwards fails with InvalidStateError.
-func VerifC21() {
+func VerifC21() { verifC21() }
+
+// VerifC21Three: three closers (each Close or GracefulClose) on a connection with
+// a local offer applied; explored without preemptions (every order in which the
+// closers and the operations worker run between blocking points).
+func VerifC21Three() { verifC21() }
+
+func verifC21() {
 	verif.Preemptible(false) // setup is sequential
 	// scenario: point of setup, number of closers, whether ICE reports a change meanwhile
 	scenarios := [][3]int{{0, 1, 1}, {2, 1, 1}, {1, 2, 0}, {0, 2, 0}, {2, 2, 0}, {1, 1, 1}, {2, 2, 1}, {1, 3, 0}}
 	sc := scenarios[verif.Choice("scenario", verif.Param("scenarios", 3))]
+	if verif.Param("three_closers", 0) == 1 {
+		sc = [3]int{1, 3, 0}
+	}
 	stage := sc[0]
 	pc := verifNewPC(SettingEngine{}, Configuration{})
 	var peer *PeerConnection
@@ -66,6 +76,8 @@ func VerifC21() {
 	verif.Settle()
 
 	n := sc[1]
+	// an operation is still queued when the closers start
+	pc.ops.Enqueue(func() { verif.Yield() })
 	verif.Preemptible(true)
 	anyGraceful := false
 	var wg sync.WaitGroup
@@ -78,6 +90,11 @@ func VerifC21() {
 			defer wg.Done()
 			if graceful {
 				errs[i] = pc.GracefulClose()
+				// the operations worker is one of the goroutines GracefulClose waits for
+				pc.ops.mu.Lock()
+				verif.Assert(pc.ops.busyCh == nil, "no-operations-worker-after-graceful-close")
+				verif.Assert(pc.ops.ops.Len() == 0, "no-operations-worker-after-graceful-close")
+				pc.ops.mu.Unlock()
 			} else {
 				errs[i] = pc.Close()
 			}
@@ -113,7 +130,6 @@ func VerifC21() {
 	mu.Unlock()
 	verif.Assert(seenClosed, "closed-reported")
 	if anyGraceful {
-		// the operations worker is one of the goroutines GracefulClose waits for
 		pc.ops.mu.Lock()
 		verif.Assert(pc.ops.busyCh == nil, "no-operations-worker-after-graceful-close")
 		verif.Assert(pc.ops.ops.Len() == 0, "no-operations-worker-after-graceful-close")
